@@ -357,7 +357,7 @@ PROPS = {
     "C01": dict(finite=[f_table_extraction, f_dispatch, f_modes, f_lookahead_targets, f_traces, f_docs("total,errors")]),
     "C02": dict(finite=[f_table_extraction, f_dispatch, f_siblings, f_bisim, f_traces, f_docs("documents,history")]),
     "C03": dict(finite=[f_build_once, f_corpus(["ast"], "ast"), f_docs("documents")]),
-    "C04": dict(finite=[f_docs("documents,layout")]),
+    "C04": dict(finite=[f_docs("documents,layout,errors")]),
     "C05": dict(finite=[f_json_identity, f_matcher]),
     "C06": dict(finite=[f_compile, f_docs("documents")]),
     "C07": dict(finite=[f_compile, f_docs("documents")]),
